@@ -71,7 +71,7 @@ class C03(core.Prop):
         return len(kept) <= case['size']['do_all']
 
     def model_ops(self, case):
-        if not self._nosampling(case) or any('\x00' in (s or '') for s in case['examples']):
+        if not rx.nosampling(case['examples'], case['opts'], case['size']):
             return []
         return [rx.model_extract_op(case['examples'], case['opts'], 'dict' if case['form'] == 'dict' else 'list')]
 
